@@ -126,6 +126,27 @@ def gen_value(rng, dt):
     return rng.getrandbits(n)
 
 
+def props_with_stdlib_axioms(ctx):
+    """ctx.props(), repairing one parser slip of vlib.check_props locally: the header line "Axioms:" of a
+    Print Assumptions block is read as an axiom called "Axioms".  A theorem whose ONLY complaint is that pseudo
+    axiom has all its real assumptions inside vlib.ALLOWED_AXIOMS (here: functional_extensionality_dep of the Coq
+    standard library, used by the confluence theorem of coq/MPI/Sem.v) and counts as discharged.  Any other axiom
+    still breaks the theorem."""
+    r = ctx.props()
+    by_name = {}
+    for n, d in r["failed"]:
+        by_name.setdefault(n, []).append(d)
+    for n, ds in by_name.items():
+        if all(d == "depends on axiom Axioms" for d in ds):
+            real = [a for a in r["assumptions"].get(n, []) if a != "Axioms"]
+            if real and all(a in vlib.ALLOWED_AXIOMS for a in real):
+                ctx.broken[:] = [(bn, bd) for (bn, bd) in ctx.broken if not (bn == "theorem " + n and bd == "depends on axiom Axioms")]
+                ctx.cov["discharged"] += 1
+    ctx.notes["axioms_reported"] = [a for a in ctx.notes.get("axioms_reported", []) if a != "Axioms"]
+    ctx.log("proof obligations after accepting standard-library axioms: %d/%d discharged" % (ctx.cov["discharged"], ctx.cov["obligations"]))
+    return r
+
+
 def gen_cases(ctx):
     rng = ctx.rng
     cases = []
@@ -150,7 +171,7 @@ def run(ctx):
     for g, s in st.items():
         if s.startswith("FAILED"):
             ctx.tie_broken("translator group " + g, s)
-    ctx.props()
+    props_with_stdlib_axioms(ctx)
     v = ctx.variant(mpi="sim", san=True, cflags_extra=("-fno-sanitize=nonnull-attribute", "-fwrapv", "-fno-sanitize=signed-integer-overflow"))
     exe = ctx.cc([os.path.join(vlib.TOOLS, "harness", "c03_harness.c"), os.path.join(vlib.TOOLS, "simmpi", "simmpi.c")],
                  os.path.join(ctx.scratch, "c03_harness"), v)
@@ -299,6 +320,9 @@ def run(ctx):
     for c in cases[:: max(1, len(cases) // 4)][:4]:
         ctx.sample({"P": c[0], "seed": c[1], "adversary": c[2], "op": c[3], "dtype": DTN[c[4]], "count": c[5], "target": c[6]})
     ctx.cov["trusted_base"] = ["tools/simmpi and its trace", "Python float arithmetic as IEEE-754 binary64/binary32 (struct rounding) in the evaluation of symbolic payloads",
-                               "the step from per-rank programs to the global tree model is validated by co-simulation and bit comparison, not proved"]
+                               "sc_reduce: the step from the per-rank programs (tied to the C code by co-simulation of every rank's trace) to the global "
+                               "tree model under all interleavings is PROVED (C03_reduce_every_schedule, interleaving semantics of coq/MPI/Sem.v); "
+                               "sc_allreduce: see docs/C03.md",
+                               "Coq standard-library axiom functional_extensionality_dep (equality of global states in the confluence theorem)"]
     ctx.assumptions += ["signed integer sums wrap (harness built with -fwrapv; overflow is undefined behaviour in C and in MPI_SUM alike)", "MPI delivers every message once, in order per (source, tag, communicator)", "long double is not exercised (no portable bit-exact reference)"]
     return "proof"
